@@ -418,7 +418,11 @@ impl<'a> CRTDetBuilder<'a> {
                     continue 'crtloop;
                 }
             }
-            mp.add(nth_row);
+            if !mp.add(nth_row) {
+                // Determinant is zero mod p
+                modp.push(0);
+                continue 'crtloop;
+            }
             let dp = mp.det();
             modp.push(dp);
         }
